@@ -54,8 +54,8 @@ func modesString(tails []int, a map[int]byte) string {
 
 // judgeStream compares one recorded event stream with the reference model.
 // Returns the accepted tail reading ("" if no tail edges) and the violations.
-func judgeStream(p *program, engine string, listen func(int) bool, got []event) (string, []viol) {
-	tail, vs := judgeStreamValues(p, engine, listen, got)
+func judgeStream(p *program, engine, hist string, listen func(int) bool, got []event) (string, []viol) {
+	tail, vs := judgeStreamValues(p, engine, hist, listen, got)
 	// slice lengths: params/results must be exactly the function type's values
 	for _, e := range got {
 		if e.Extra > 0 {
@@ -76,7 +76,7 @@ func judgeStream(p *program, engine string, listen func(int) bool, got []event) 
 	return tail, vs
 }
 
-func judgeStreamValues(p *program, engine string, listen func(int) bool, got []event) (string, []viol) {
+func judgeStreamValues(p *program, engine, hist string, listen func(int) bool, got []event) (string, []viol) {
 	t := p.tree
 	tails := t.tailNodes()
 	// 1. the statement: some reading with every tail call nested or return-then-call
@@ -88,12 +88,25 @@ func judgeStreamValues(p *program, engine string, listen func(int) bool, got []e
 	}
 	// 2. known defect readings, least deviation first
 	deep := len(t) >= implStackCapWazevo
-	type capOpt struct{ abort, stack int }
-	caps := []capOpt{{0, 0}}
+	type capOpt struct {
+		abort, stack     int
+		lcStack, lcAbort bool
+	}
+	caps := []capOpt{{0, 0, false, false}}
 	if deep {
-		caps = append(caps, capOpt{implAbortCap, 0})
+		caps = append(caps, capOpt{abort: implAbortCap})
 		if engine == "compiler" {
-			caps = append(caps, capOpt{0, implStackCapWazevo}, capOpt{implAbortCap, implStackCapWazevo})
+			caps = append(caps, capOpt{stack: implStackCapWazevo}, capOpt{abort: implAbortCap, stack: implStackCapWazevo})
+		}
+	}
+	// instance outliving its CompiledModule (compiler): stack walk / abort walk lose deleted modules
+	if engine == "compiler" && (hist == "closedcm" || hist == "hostclose" || hist == "rtinst") {
+		for _, c := range append([]capOpt{}, caps...) {
+			for _, lc := range [][2]bool{{true, false}, {false, true}, {true, true}} {
+				c2 := c
+				c2.lcStack, c2.lcAbort = lc[0], lc[1]
+				caps = append(caps, c2)
+			}
 		}
 	}
 	d := defectTailModes(engine)
@@ -107,10 +120,10 @@ func judgeStreamValues(p *program, engine string, listen func(int) bool, got []e
 					nd++
 				}
 			}
-			if nd == 0 && c.abort == 0 && c.stack == 0 {
+			if nd == 0 && c.abort == 0 && c.stack == 0 && !c.lcStack && !c.lcAbort {
 				continue
 			}
-			want, _ := runModel(t, p.sigs, listen, modelOpts{tail: a, abortCap: c.abort, stackCap: c.stack})
+			want, _ := runModel(t, p.sigs, listen, modelOpts{tail: a, abortCap: c.abort, stackCap: c.stack, lifecycle: hist, lcStack: c.lcStack, lcAbort: c.lcAbort})
 			if !eventsEqual(got, want) {
 				continue
 			}
@@ -119,6 +132,12 @@ func judgeStreamValues(p *program, engine string, listen func(int) bool, got []e
 				score += 100
 			}
 			if c.stack > 0 {
+				score += 100
+			}
+			if c.lcStack {
+				score += 100
+			}
+			if c.lcAbort {
 				score += 100
 			}
 			if best >= 0 && score >= best {
@@ -143,6 +162,14 @@ func judgeStreamValues(p *program, engine string, listen func(int) bool, got []e
 			if c.stack > 0 {
 				bestV = append(bestV, viol{"stack-iterator-capped-at-29-frames:" + engine,
 					fmt.Sprintf("the stack iterator lists at most %d frames: deepest before-event of a %d-frame chain lists %d", implStackCapWazevo, len(t), maxStack(got))})
+			}
+			if c.lcStack {
+				bestV = append(bestV, viol{"closed-compiled-module:compiler:stack-iterator-stops-at-deleted-module",
+					fmt.Sprintf("history %s: once the CompiledModule of a live instance is closed, the stack iterator of before-events stops at the first frame of that module (not even the callee is listed); got %s", hist, clipS(streamString(got)))})
+			}
+			if c.lcAbort {
+				bestV = append(bestV, viol{"closed-compiled-module:compiler:no-abort-for-frames-of-modules-not-imported-by-the-entry-module",
+					fmt.Sprintf("history %s: once the CompiledModules are closed, unwinding notifies only frames of the entered module and of modules it imports directly; frames of modules further down the import chain (or host functions imported by them) get no abort; got %s", hist, clipS(streamString(got)))})
 			}
 		}
 	}
@@ -307,4 +334,11 @@ func relation(t Tree, a, b int) string {
 		}
 	}
 	return "other-branch"
+}
+
+func clipS(s string) string {
+	if len(s) > 400 {
+		return s[:400] + "…"
+	}
+	return s
 }
